@@ -30,9 +30,12 @@ def check_single(prog, rep, profile, op, rule="pipeline"):
     rep.fn(key)
     try:
         paths = pl.extract(prog, key, [self_ref(profile), Str(("input",))])
+    except pl.UnexpectedCall as e:
+        rep.ob(rule, inst, False, str(e), b.where(), key="%s|%s|unexpected-call" % (rule, inst))
+        return []
     except ip.AnalysisError as e:
         rep.analysis_error(rule, inst, e, b.where())
-        return None
+        return []
     want = [(ev, r) for ev, r, n in pl.spec_paths(sp.SPECS[(profile, op)], ("input",))]
     d = pl.diff_paths(paths, want)
     rep.ob(rule, inst, not d, "; ".join(d), b.where(), key="%s|%s" % (rule, inst), sample=True)
@@ -50,9 +53,12 @@ def check_compare(prog, rep, profile, rule="compare"):
     rep.fn(key)
     try:
         paths = pl.extract(prog, key, [self_ref(profile), Str(("input", 1)), Str(("input", 2))])
+    except pl.UnexpectedCall as e:
+        rep.ob(rule, inst, False, str(e), b.where(), key="%s|%s|unexpected-call" % (rule, inst))
+        return []
     except ip.AnalysisError as e:
         rep.analysis_error(rule, inst, e, b.where())
-        return None
+        return []
     want = pl.spec_compare_paths(sp.SPECS[(profile, "enforce")])
     d = pl.diff_paths(paths, want)
     rep.ob(rule, inst, not d, "; ".join(d), b.where(), key="%s|%s" % (rule, inst), sample=True)
